@@ -9,7 +9,7 @@
 (***************************************************************************)
 EXTENDS TssSigning, IOUtils, Json
 
-CONSTANTS Depth, InitDESet, MaxPerBlock
+CONSTANTS Depth, InitDESet, MaxPerBlock, SrcSet
 VARIABLES script, ide, per0, nb
 gvars == <<vars, script, ide, per0, nb>>
 
@@ -33,9 +33,9 @@ GInit ==
     /\ nb = 0
     /\ q = [a \in Addr |-> IF a \in Member THEN [i \in 1..ide |-> i] ELSE <<>>]
     /\ nser = [a \in Addr |-> IF a \in Member THEN ide ELSE 0]
-    /\ tssAct = [m \in Member |-> TRUE]
-    /\ ownAct = [m \in Member |-> TRUE]
-    /\ cool = [m \in Member |-> 0]
+    /\ tssAct = [g \in Grp |-> [m \in Member |-> g = 1]]
+    /\ ownAct = [g \in Grp |-> [m \in Member |-> g = 1]]
+    /\ cool = [g \in Grp |-> [m \in Member |-> 0]]
     /\ count = 0
     /\ sig = [id \in Ids |-> NoSig]
     /\ att = [id \in Ids |-> NoAtt]
@@ -44,6 +44,7 @@ GInit ==
     /\ mapped = [id \in Ids |-> FALSE]
     /\ nSucc = [id \in Ids |-> 0]
     /\ nFail = [id \in Ids |-> 0]
+    /\ tr = "none" /\ trSig = 0
     /\ out = "init" /\ pen = {} /\ ret = <<>>
     /\ usedBy = [t \in Token |-> {}]
     /\ pchg = FALSE
@@ -53,6 +54,12 @@ GInit ==
 \* speaks only at the start of a block
 Last == Len(script) >= Depth - 2 \/ nb >= MaxPerBlock
 Quiet(a) == a \in Stranger => nb = 0
+
+\* the committee the walk draws is irrelevant for the script (the real sampler draws its own): two
+\* priority orders are enough to vary the walk and keep the number of successors small
+P1 == CHOOSE pr \in Prios : TRUE
+P2 == CHOOSE pr \in Prios : \A m \in Member : pr[m] = Cardinality(Member) + 1 - P1[m]
+GPrios == {P1, P2}
 
 \* keep the random walk on the interesting part of the input space
 SigKinds(m, id) ==
@@ -71,27 +78,32 @@ GNext ==
           /\ ~Last /\ q[a] # <<>> /\ Quiet(a)
           /\ ResetDE(a)
           /\ script' = Append(script, [e |-> "ResetDE", who |-> WhoA(a)])
-    \/ /\ ~Last
-       /\ \/ \E S \in SUBSET Member : RequestOK(S)
-          \/ RequestRej
-       /\ script' = Append(script, [e |-> "Request"])
+    \/ \E src \in SrcSet :
+          /\ ~Last
+          /\ \/ \E S \in SUBSET Member : RequestOK(S, P1)
+             \/ RequestRej
+          /\ script' = Append(script, [e |-> "Request", src |-> src])
     \/ /\ ~Last /\ ~RequestRejGuard
        /\ RequestRollback
        /\ script' = Append(script, [e |-> "RequestRollback"])
+    \/ /\ ~Last /\ TransOn /\ tr = "none" /\ count > 0
+       /\ Transition
+       /\ script' = Append(script, [e |-> "Transition"])
     \/ \E m \in Addr, id \in Ids : \E kind \in SigKinds(m, id) :
           /\ ~Last /\ Quiet(m)
           /\ SubmitSig(m, id, kind = "good" /\ att[id].present /\ m \in att[id].mem)
           /\ script' = Append(script, [e |-> "SubmitSig", id |-> id, who |-> WhoS(m, id), kind |-> kind])
-    \/ \E a \in Addr :
-          /\ ~Last /\ Quiet(a) /\ (IF a \in Stranger THEN TRUE ELSE ~ownAct[a])
-          /\ Activate(a)
-          /\ script' = Append(script, [e |-> "Activate", who |-> WhoA(a)])
-    \/ \E n \in PreSet :
-          /\ Last => n = 0
-          /\ n > 0 => nb <= 1                     \* oracle-originated signings only after short blocks (keeps the walk cheap)
-          /\ EndBlock(n)
+    \/ \E a \in Addr, g \in Grp :
+          /\ ~Last /\ Quiet(a) /\ (g = 2 => tr = "exec") /\ (IF a \in Stranger THEN g = 1 ELSE ~ownAct[g][a])
+          /\ Activate(a, g)
+          /\ script' = Append(script, [e |-> "Activate", who |-> WhoA(a), g |-> g])
+    \/ \E n \in PreSet, k \in PostSet :
+          /\ Last => (n = 0 /\ k = 0)
+          /\ n + k <= 1
+          /\ nb >= 2 \/ Last \/ count = 0              \* at least two messages per block once signings exist
+          /\ \E pr \in GPrios : EndBlockP(n, k, pr, NoPick, FALSE, FALSE)
           /\ nb' = 0
-          /\ script' = Append(script, [e |-> "EndBlock", npre |-> n])
+          /\ script' = Append(script, [e |-> "EndBlock", npre |-> n, ntun |-> k])
     \/ \E p \in PeriodSet :
           /\ ~Last /\ count > 0
           /\ SetPeriod(p)
@@ -104,7 +116,7 @@ Emit ==
         Serialize(<<[fam |-> "TssSigning",
                      c |-> [t |-> params.t, maxDE |-> params.maxDE, maxAtt |-> params.maxAtt,
                             period |-> per0, penalty |-> params.penalty, initDE |-> ide,
-                            oracle |-> PreSet # {0}],
+                            oracle |-> PreSet # {0}, tunnel |-> (PostSet # {0} \/ "tunnel" \in SrcSet), trans |-> TransOn],
                      steps |-> script]>>,
                   IOEnv.GEN_OUT,
                   [format |-> "NDJSON", charset |-> "UTF-8", openOptions |-> <<"WRITE", "CREATE", "APPEND">>])
